@@ -12,6 +12,8 @@ R-C01-5  (= R-C03-6) honest proofs verify in every batch order: the per-proof lo
          other than the gate's accumulators, the result vector and the weight RNG
 R-C01-7  (= R-C11-4/all-slots) every slot of the blinding-generator table receives a derived point: a slot left at its placeholder (the
          identity) makes the transcript refuse the generators of every extension degree that uses it
+R-C01-8  a power of a challenge reached by repeated squaring is right for every round count: a chain that starts one squaring ahead and
+         runs over `1..k` is wrong for k = 0 (bit length 1, one commitment) unless k >= 1 is established
 R-C01-4  the prover refuses no valid witness: its witness-dependent rejections are exactly the five documented checks, with the right
          constants and quantifiers (= R-C06-1/2; an honest prover that is refused yields no accepted proof)
 """
@@ -48,6 +50,9 @@ def run(ctx):
     from . import C03
     shared(ctx, C03.per_member_independence, 'R-C03-6', 'R-C01-5')
     verifier_content_tests(ctx, 'R-C01-6')
+    # R-C01-8: powers reached by repeated squaring are right for every round count, zero included
+    for core in {b for b in (msm.verifier_core(ctx, 'R-C01-8'), ctx.fn('RangeProof::<P>::prove_with_rng', 'R-C01-8')) if b is not None}:
+        recurrence.check_squaring_chains(ctx, 'R-C01-8', core)
     # R-C01-7: every blinding generator is a derived point (a slot left at the identity is refused by the transcript: no proof at that degree)
     from . import C11
     shared(ctx, C11.r4, 'R-C11-4', 'R-C01-7', only=('/all-slots',))
